@@ -58,9 +58,21 @@ def run(ck, rng, tier):
             n = min(n, 7)
             M = structured(rng, n, rng.choice(("general", "diag")), 10.0)
             M[rng.randrange(n), :] *= rng.choice((5e-5, 2e-5))
-        if abs(np.linalg.det(M)) < 1e-12 or np.linalg.cond(M) > 1e7:
+        lse_only = False
+        if c % 9 == 6 and n >= 2:
+            # linear systems in small units (every entry ~1e-5) or with a small leading entry that is a perfectly good pivot
+            lse_only = True
+            if rng.random() < 0.5:
+                kind, cond = "small_units", 10.0
+                M = structured(rng, n, "general", 10.0) * rng.choice((1e-5, 3e-6))
+            else:
+                kind, cond = "small_pivot", 10.0
+                M = structured(rng, n, "general", 10.0)
+                M[0, 0] = rng.choice((-1, 1)) * rng.choice((5e-4, 2e-4, 9e-4))
+        if (abs(np.linalg.det(M)) < 1e-12 and not lse_only) or np.linalg.cond(M) > 1e7:
             continue
-        lines.append("square %s" % vf.fmt_mat(M.tolist(), n)); meta.append(("square", M, kind, cond))
+        if not lse_only:
+            lines.append("square %s" % vf.fmt_mat(M.tolist(), n)); meta.append(("square", M, kind, cond))
         x = np.array([rng.uniform(-3, 3) for _ in range(n)])
         Ab = np.hstack([M, (M @ x).reshape(-1, 1)])
         lines.append("lse %s" % vf.fmt_mat(Ab.tolist(), n + 1)); meta.append(("lse", M, x, kind, cond))
@@ -120,12 +132,21 @@ def run(ck, rng, tier):
         elif kind == "lse":
             _, M, x, skind, cond = mt
             ck.case(("lse", M.shape[0], skind, repr(M[0].tolist())))
-            sol = np.array(o["solution"])
-            piv_ok = True  # the routine uses an absolute 1e-4 threshold on pivots; skip badly scaled cases
-            if cond <= 10 and skind in ("general", "spd", "tri", "diag", "perm") and np.abs(M).min() == np.abs(M).min():
-                if not np.isfinite(sol).all() or np.abs(M @ sol - M @ x).max() > 1e-6 * max(1.0, np.abs(M @ x).max()):
-                    ck.fail("SolveLSE", "not_solution_" + skind, "A x != b: max residual %.3g (n=%d, %s)" % (np.abs(M @ sol - M @ x).max() if np.isfinite(sol).all() else float("nan"), M.shape[0], skind),
-                            {"A": M.tolist(), "b": (M @ x).tolist()})
+            b_ = M @ x
+            kM = float(np.linalg.cond(M))
+            # every non-singular system of the quantified domain (condition <= 1e6, any units): small residual (backward
+            # stability) and a solution within condition x rounding of the exact one; the same whatever the solution
+            # vector held before the call
+            for which in ("solution", "solution_reused", "solution_resized"):
+                sol = np.array(o[which])
+                fin = sol.shape == x.shape and np.isfinite(sol).all()
+                res = np.abs(M @ sol - b_).max() if fin else float("nan")
+                err_ = np.abs(sol - x).max() if fin else float("nan")
+                if not fin or res > 1e-9 * (np.abs(M).max() * max(1.0, np.abs(sol).max()) * M.shape[0] + np.abs(b_).max()) or err_ > 1e-11 * max(kM, 10.0) * M.shape[0] * max(1.0, np.abs(x).max()):
+                    ck.fail("SolveLSE", "not_solution_" + skind + ("" if which == "solution" else "_" + which.split("_")[1]),
+                            "A x != b: max residual %.3g, max error %.3g (n=%d, %s, condition %.3g%s)" % (res, err_, M.shape[0], skind, kM, "" if which == "solution" else "; solution vector holding numbers before the call"),
+                            {"A": M.tolist(), "b": b_.tolist()})
+                    break
         elif kind == "eig":
             S = mt[1]
             n = S.shape[0]
